@@ -3,6 +3,8 @@ C14 — a hold-up delays everything by the hold-up; time itself is irrelevant.
 -/
 import Wheatley.Props.C12
 import Wheatley.Model.World
+import Wheatley.Lemmas.World
+import Wheatley.Lemmas.Handlers
 namespace Wheatley.C14
 open Generated
 
@@ -77,5 +79,321 @@ theorem lerp_origin_free (a b t c : K) : lerp (a + c) (b + c) t = lerp a b t + c
 
 /-! Non-vacuity: a wait planned 2 s before a bell due at 100 on the line, with 0.37 s of delay. -/
 example : (101.63 : ℚ) + ((100 : ℚ) - (101.63 - 0.37) + 0) = 100 + 0.37 := by norm_num
+
+/-! ### The whole system: the hold-up is never forgotten -/
+section System
+
+theorem withReg_wait (w : World K) (f : (List (K × K × K) → K × K) → Reg K) : (w.withReg f).rh.wait = w.rh.wait := by
+  unfold World.withReg
+  simp only []
+  exact ite_proj (fun x : World K => x.rh.wait) _ _ _ _ rfl rfl
+
+theorem withReg_delay (w : World K) (f : (List (K × K × K) → K × K) → Reg K) : (w.withReg f).delay = w.delay := by
+  unfold World.delay
+  rw [withReg_wait]
+
+theorem onBellRing_delay (x : WaitR K) (bell : Nat) (hand : Bool) : (x.onBellRing bell hand).delay = x.delay := by
+  unfold WaitR.onBellRing WaitR.setExpected WaitR.setEarly
+  cases hand <;> cases x.currentHand <;> simp
+
+theorem delay_map (w : World K) (g : WaitR K → WaitR K) (hg : ∀ x, (g x).delay = x.delay) (r : Reg K) :
+    ({ w with rh := { w.rh with reg := r, wait := w.rh.wait.map g } } : World K).delay = w.delay := by
+  unfold World.delay
+  cases hw : w.rh.wait with
+  | none => simp
+  | some x => simp [hg]
+
+/-- Interpreting an output - a rhythm call included - never changes the accumulated hold-up. -/
+theorem applyOut_delay (wt : K → K) (ct : K) (w : World K) (o : Out) : (World.applyOut wt ct w o).delay = w.delay := by
+  unfold World.applyOut
+  cases o <;> simp only []
+  all_goals first
+    | (split <;> rfl)
+    | skip
+  · -- rReturn
+    split
+    · rfl
+    · cases hw : w.rh.wait <;> simp [World.delay, hw]
+  · -- rInit
+    split
+    · rfl
+    · split
+      · rename_i wr hw
+        rw [withReg_delay]
+        have : w.delay = wr.delay := by
+          unfold World.delay
+          rw [hw]
+        rw [this]
+        rfl
+      · rw [withReg_delay]; rfl
+  · -- rExpect
+    split
+    · rfl
+    · cases hw : w.rh.wait <;> simp [World.delay, hw, waitR_expect_delay]
+  · -- rBellRing
+    split
+    · rfl
+    · unfold World.delay
+      simp only []
+      rw [withReg_wait]
+      cases hw : w.rh.wait <;> simp [onBellRing_delay]
+  · -- rSetting
+    split
+    · rfl
+    · split
+      · split
+        · split <;> rfl
+        · rfl
+      · split
+        · split
+          · split <;> rfl
+          · rfl
+        · rfl
+
+theorem foldl_applyOut_delay (wt : K → K) (ct : K) (outs : List Out) :
+    ∀ (w : World K), (outs.foldl (World.applyOut wt ct) w).delay = w.delay := by
+  induction outs with
+  | nil => intro w; rfl
+  | cons o rest ih =>
+    intro w
+    simp only [List.foldl_cons]
+    rw [ih, applyOut_delay]
+
+/-- The hold-up accumulated so far is at least `d0`, and the polling loop's own count of the time it has slept is
+not negative. -/
+structure Held (w : World K) (d0 : K) : Prop where
+  delay : d0 ≤ w.delay
+  poll : ∀ bell uc hand d, w.pc = .userPoll bell uc hand d → 0 ≤ d
+
+theorem Held.of_eq {w w' : World K} {d0 : K} (h : Held w d0) (h1 : w'.delay = w.delay) (h2 : w'.pc = w.pc) :
+    Held w' d0 :=
+  { delay := (by rw [h1]; exact h.delay), poll := (by rw [h2]; exact h.poll) }
+
+theorem Held.of_pc {w w' : World K} {d0 : K} (h : d0 ≤ w.delay) (h1 : w'.delay = w.delay)
+    (h2 : ∀ bell uc hand d, w'.pc ≠ .userPoll bell uc hand d) : Held w' d0 :=
+  { delay := (by rw [h1]; exact h), poll := (fun bell uc hand d e => absurd e (h2 bell uc hand d)) }
+
+theorem finishTick_held (wt : K → K) (w : World K) (bell : Nat) (uc : Bool) (d0 : K) (h : d0 ≤ w.delay) :
+    Held (w.finishTick wt bell uc).1 d0 := by
+  unfold World.finishTick
+  simp only []
+  have h1 := foldl_applyOut_delay wt w.now (w.bot.tickEnd bell uc).2 ({ w with bot := (w.bot.tickEnd bell uc).1 } : World K)
+  split
+  · exact Held.of_pc h h1 (by intro _ _ _ _ e; cases e)
+  · exact Held.of_pc h h1 (by intro _ _ _ _ e; cases e)
+
+theorem W0_nonneg : (0 : K) ≤ W0 := by
+  simp [W0, num_ofNat]
+
+theorem poll_nonneg : (0 : K) ≤ Num.ofQ waitSleepTime := by
+  simp [num_ofQ, waitSleepTime]
+
+theorem afterInner_held (wt : K → K) (w : World K) (bell : Nat) (uc hand : Bool) (d : K) (js : Bool) (d0 : K)
+    (hd : 0 ≤ d) (h : d0 ≤ w.delay) : Held (w.afterInner wt bell uc hand d js).1 d0 := by
+  unfold World.afterInner
+  split
+  · rename_i wr hw
+    have hwd : w.delay = wr.delay := by unfold World.delay; rw [hw]
+    split
+    · simp only []
+      split
+      · apply finishTick_held
+        show d0 ≤ (if Num.eqb d W0 = true then wr else { wr with delay := wr.delay + d }).delay
+        rw [hwd] at h
+        split
+        · exact h
+        · show d0 ≤ wr.delay + d
+          linarith
+      · exact { delay := h, poll := (by intro _ _ _ d' e; cases e; exact hd) }
+    · apply finishTick_held
+      show d0 ≤ wr.delay
+      rw [← hwd]; exact h
+  · exact finishTick_held wt w bell uc d0 h
+
+theorem beginWait_held (w : World K) (bell : Nat) (uc hand : Bool) :
+    (w.beginWait bell uc hand).1.delay = w.delay ∧
+    (∀ b u hd d, (w.beginWait bell uc hand).2.2 ≠ PC.userPoll b u hd d) := by
+  unfold World.beginWait
+  split
+  · exact ⟨rfl, by intro _ _ _ _ e; cases e⟩
+  · simp only []
+    cases hw : w.rh.wait with
+    | none => simp only []; split <;> exact ⟨by simp [World.delay, hw], by intro _ _ _ _ e; cases e⟩
+    | some wr => simp only []; split <;> exact ⟨by simp [World.delay, hw], by intro _ _ _ _ e; cases e⟩
+
+/-- One step of the main thread never lowers the hold-up. -/
+theorem mainStep_held (wt : K → K) (w : World K) (d0 : K) (h : Held w d0) : Held (w.mainStep wt).1 d0 := by
+  unfold World.mainStep
+  split
+  · exact h
+  · split
+    · split
+      · split
+        · simp only []
+          have h1 := fun ct => foldl_applyOut_delay wt ct w.bot.lookTo.2 ({ w with bot := w.bot.lookTo.1 } : World K)
+          split
+          · exact Held.of_pc h.delay (h1 _) (by intro _ _ _ _ e; cases e)
+          · exact Held.of_pc h.delay (h1 _) (by intro _ _ _ _ e; cases e)
+        · exact Held.of_pc h.delay rfl (by intro _ _ _ _ e; cases e)
+      · exact Held.of_pc h.delay rfl (by intro _ _ _ _ e; cases e)
+    · exact Held.of_pc h.delay rfl (by intro _ _ _ _ e; cases e)
+  · exact Held.of_pc h.delay rfl (by intro _ _ _ _ e; cases e)
+  · split
+    · exact Held.of_pc h.delay rfl (by intro _ _ _ _ e; cases e)
+    · refine Held.of_pc h.delay (foldl_applyOut_delay wt w.now _ ({ w with pc := .ringCheck } : World K)) ?_
+      rw [foldl_applyOut_pc]
+      intro _ _ _ _ e; cases e
+  · split
+    · exact Held.of_pc h.delay rfl (by intro _ _ _ _ e; cases e)
+    · exact Held.of_pc h.delay rfl (by intro _ _ _ _ e; cases e)
+  · split
+    · split
+      · exact Held.of_pc h.delay rfl (by intro _ _ _ _ e; cases e)
+      · obtain ⟨b1, b2⟩ := beginWait_held w _ _ w.bot.hand
+        exact Held.of_pc h.delay b1 b2
+    · refine Held.of_pc h.delay (foldl_applyOut_delay wt w.now _ ({ w with pc := .outerTop } : World K)) ?_
+      rw [foldl_applyOut_pc]
+      intro _ _ _ _ e; cases e
+  · split
+    · exact h
+    · exact afterInner_held wt w _ _ _ _ _ d0 W0_nonneg h.delay
+  · apply afterInner_held _ _ _ _ _ _ _ _ W0_nonneg
+    split
+    · exact h.delay
+    · exact h.delay
+  · rename_i bell uc hand d hpc
+    exact afterInner_held wt w _ _ _ _ _ d0 (add_nonneg (h.poll _ _ _ _ hpc) poll_nonneg) h.delay
+  · exact Held.of_pc h.delay rfl (by intro _ _ _ _ e; cases e)
+
+theorem lookToSuspends_wait (w : World K) (m : Msg) (s : Susp K) (wr : WaitR K)
+    (h : w.lookToSuspends m = some (s, wr)) : w.rh.wait = some wr := by
+  unfold World.lookToSuspends at h
+  split at h
+  · split at h
+    · split at h
+      · rename_i wr' _ hw
+        simp only [] at h
+        split at h
+        · split at h
+          · injection h with h; injection h with _ h2; rw [hw, h2]
+          · cases h
+        · cases h
+      · cases h
+    · cases h
+  · cases h
+
+/-- The delivery of any event - an accepted Look To and the waking of its handler included - leaves the hold-up as
+it is. -/
+theorem deliver_delay (wt : K → K) (w : World K) (e : Ev) : (World.deliver wt w e).delay = w.delay := by
+  cases e with
+  | resume =>
+    unfold World.deliver
+    simp only []
+    split
+    · rename_i s _
+      unfold World.lookToResume World.lookToRest
+      simp only []
+      have hin : (World.lookToInner ({ w with suspended := none } : World K) s).delay = w.delay := by
+        unfold World.lookToInner
+        split
+        · exact withReg_delay ({ w with suspended := none } : World K) _
+        · rfl
+      generalize World.lookToInner ({ w with suspended := none } : World K) s = wi at hin
+      have h1 := foldl_applyOut_delay wt wi.now (wi.bot.armLookTo.startNextRow true).2
+        ({ wi with bot := (wi.bot.armLookTo.startNextRow true).1 } : World K)
+      split
+      · exact h1.trans hin
+      · exact h1.trans hin
+    · rfl
+  | msg m =>
+    unfold World.deliver
+    simp only []
+    split
+    · rename_i s wr hsus
+      have hw := lookToSuspends_wait w m s wr hsus
+      unfold World.lookToBegin World.delay
+      simp only [hw]
+      rfl
+    · unfold World.deliverMsg
+      simp only []
+      have h1 := foldl_applyOut_delay wt w.now (w.bot.onMsg m).2 ({ w with bot := (w.bot.onMsg m).1 } : World K)
+      split
+      · exact h1
+      · exact h1
+
+theorem deliver_held (wt : K → K) (w : World K) (e : Ev) (d0 : K) (h : Held w d0) : Held (World.deliver wt w e) d0 :=
+  h.of_eq (deliver_delay wt w e) (deliver_never_rings wt w e).1
+
+theorem sleep_go_held (wt : K → K) (limit : K) (d0 : K) :
+    ∀ (events : List (K × Ev)) (w : World K), Held w d0 → Held (World.sleep.go wt limit w events).1 d0 := by
+  intro events
+  induction events with
+  | nil => intro w h; exact h
+  | cons ev rest ih =>
+    intro w h
+    obtain ⟨t, m⟩ := ev
+    unfold World.sleep.go
+    split
+    · apply ih
+      apply deliver_held
+      split
+      · exact h.of_eq rfl rfl
+      · exact h
+    · exact h
+
+theorem sleep_held (wt : K → K) (endTime : K) (w : World K) (d : K) (events : List (K × Ev)) (d0 : K) (h : Held w d0) :
+    Held (World.sleep wt endTime w d events).1 d0 := by
+  unfold World.sleep
+  simp only []
+  split
+  · exact sleep_go_held wt endTime d0 events w h
+  · exact (sleep_go_held wt (w.now + d) d0 events w h).of_eq rfl rfl
+
+theorem run_held (wt : K → K) (endTime : K) (d0 : K) :
+    ∀ (fuel : Nat) (w : World K) (events : List (K × Ev)), Held w d0 → Held (World.run wt endTime fuel w events).1 d0 := by
+  intro fuel
+  induction fuel with
+  | zero => intro w events h; exact h
+  | succ fuel ih =>
+    intro w events h
+    unfold World.run
+    have hm := mainStep_held wt w d0 h
+    split
+    · rename_i w1 heq; rw [heq] at hm; exact hm
+    · rename_i w1 heq; rw [heq] at hm; exact ih w1 events hm
+    · rename_i w1 d heq
+      rw [heq] at hm
+      have hsl := sleep_held wt endTime w1 d events d0 hm
+      simp only []
+      split
+      · exact hsl
+      · exact ih _ _ hsl
+
+/-- **A hold-up is never forgotten.**  Whatever hold-up the band has caused so far stays in every later bell time:
+in every state of every run - whatever is struck and whenever, whoever comes, goes, takes or drops a rope, whatever
+is called, selected, set or stopped, *Look To and a new touch included*, for as many steps as you like - the
+accumulated delay is at least what it was.  (Every wait is planned from `now − delay`, `wake_is_inner_plus_delay`:
+so everything after a hold-up is later by at least that hold-up, for good.) -/
+theorem hold_up_never_forgotten (wt : K → K) (endTime : K) (fuel : Nat) (w : World K) (events : List (K × Ev))
+    (hpc : ∀ bell uc hand d, w.pc = .userPoll bell uc hand d → 0 ≤ d) :
+    w.delay ≤ (World.run wt endTime fuel w events).1.delay :=
+  (run_held wt endTime w.delay fuel w events { delay := le_refl _, poll := hpc }).delay
+
+/-- From the moment the session is joined (the main thread is not yet polling for anyone). -/
+theorem hold_up_monotone_from_start (wt : K → K) (endTime : K) (fuel : Nat) (now : K) (bot : Bot) (rh : Rh K)
+    (tape : List (K × K)) (lt : Option K) (events : List (K × Ev)) :
+    (World.init now bot rh tape lt).delay ≤ (World.run wt endTime fuel (World.init now bot rh tape lt) events).1.delay :=
+  hold_up_never_forgotten wt endTime fuel _ events (by intro _ _ _ _ e; cases e)
+
+/-- Non-vacuity: a band 0.37 s behind, the main thread two polls into waiting for bell 3 - `Held`. -/
+example : ∃ w : World ℚ, Held w (37 / 100) ∧ w.pc = .userPoll 3 true true (1 / 50) := by
+  refine ⟨{ World.init (0 : ℚ) (Bot.init (Gen.init .placeholder none []) false false true none none)
+              { reg := Reg.init (1 : ℚ) 180 1 4 15 0,
+                wait := some { currentHand := true, expectedHand := [3], expectedBack := [], earlyHand := [],
+                               earlyBack := [], delay := 37 / 100, shouldReturn := false },
+                stub := none } [] none with pc := .userPoll 3 true true (1 / 50) }, ?_, rfl⟩
+  exact { delay := le_refl _, poll := (by intro _ _ _ d e; cases e; norm_num) }
+
+end System
 
 end Wheatley.C14
